@@ -33,7 +33,9 @@ type c11Case struct {
 	Dup      bool
 }
 
-var c11Types = []string{"*A", "*B", "*C"}
+// the 4th "type" is the curried one-argument form over *A: its argument type list [*A] is a proper
+// prefix of the two-argument list [*A *A]
+var c11Types = []string{"*A", "*B", "*C", "*A"}
 var c11Names = [][]string{{"deriveEqual", "deriveEqualX", "deriveEqual_"}, {"deriveHash", "deriveHashX", "deriveHash_"}}
 var c11NamesReserved = [][]string{{"deriveEqual", "deriveEqualX", "deriveEqualY"}, {"deriveHash", "deriveHashX", "deriveHashY"}}
 
@@ -49,25 +51,43 @@ func (cs *c11Case) names() [][]string {
 	return c11Names
 }
 
+// userSource is the hand-written part; it lives in a file that sorts AFTER the file with the
+// derive calls, so reserved names have to be known before the first file is registered.
+func (cs *c11Case) userSource() string {
+	var sb strings.Builder
+	sb.WriteString("package p\n\n")
+	cs.writeUser(&sb)
+	return sb.String()
+}
+
 func (cs *c11Case) source() string {
 	var sb strings.Builder
 	sb.WriteString("package p\n\ntype A struct{ X int }\n\ntype B struct{ Y string }\n\ntype C struct{ Z []int }\n\n")
+	cs.writeCalls(&sb)
+	return sb.String()
+}
+
+func (cs *c11Case) writeUser(sb *strings.Builder) {
 	if cs.Reserved == 1 {
 		sb.WriteString("// hand-written functions occupying the first helper names goderive would mint\nfunc deriveEqual_(x int) int { return x }\n\nfunc deriveHash_(x int) int { return x }\n\nvar _ = deriveEqual_(1) + deriveHash_(2)\n\n")
 	}
 	if cs.Reserved == 2 {
 		sb.WriteString("// hand-written functions named exactly like the plugin prefixes\nfunc deriveEqual(x int) int { return x }\n\nfunc deriveHash(x int) int { return x }\n\nvar _ = deriveEqual(1) + deriveHash(2)\n\n")
 	}
+}
+
+func (cs *c11Case) writeCalls(sb *strings.Builder) {
 	for i, cl := range cs.Calls {
 		T := c11Types[cl.Type]
 		n := cs.names()[cl.Plugin][cl.Name]
-		if cl.Plugin == 0 {
-			fmt.Fprintf(&sb, "func use%d(a, b %s) bool { return %s(a, b) }\n\n", i, T, n)
+		if cl.Plugin == 0 && cl.Type == 3 {
+			fmt.Fprintf(sb, "func use%d(a, b %s) bool { return %s(a)(b) }\n\n", i, T, n)
+		} else if cl.Plugin == 0 {
+			fmt.Fprintf(sb, "func use%d(a, b %s) bool { return %s(a, b) }\n\n", i, T, n)
 		} else {
-			fmt.Fprintf(&sb, "func use%d(a %s) uint64 { return %s(a) }\n\n", i, T, n)
+			fmt.Fprintf(sb, "func use%d(a %s) uint64 { return %s(a) }\n\n", i, T, n)
 		}
 	}
-	return sb.String()
 }
 
 // classify computes conflict / duplicate from the construction of the case.
@@ -136,7 +156,7 @@ func c11Cases(c *Ctx) []c11Case {
 			return
 		}
 		for n := 0; n < 3; n++ {
-			for t := 0; t < 3; t++ {
+			for t := 0; t < 4; t++ {
 				rec(append(cur, c11Call{0, n, t}), k)
 			}
 		}
@@ -149,7 +169,8 @@ func c11Cases(c *Ctx) []c11Case {
 		k := 4 + r.Intn(3)
 		var s []c11Call
 		for j := 0; j < k; j++ {
-			s = append(s, c11Call{r.Intn(2), r.Intn(3), r.Intn(3)})
+			pl := r.Intn(2)
+			s = append(s, c11Call{pl, r.Intn(3), r.Intn(3 + (1 - pl))})
 		}
 		seqs = append(seqs, s)
 	}
@@ -162,7 +183,7 @@ func c11Cases(c *Ctx) []c11Case {
 				cs.classify()
 				if c.Quick {
 					// seed-rotated slice: keep every clash-free singleton out, sample the rest
-					h := (si*7 + fi*3 + res + int(c.Seed)) % 9
+					h := (si*7 + fi*3 + res + int(c.Seed)) % 13
 					if h != 0 && !(len(s) <= 2 && res == 0) {
 						continue
 					}
@@ -238,7 +259,7 @@ func checkC11(c *Ctx) {
 	parallel(len(cases), 14, func(i int) {
 		cs := cases[i]
 		dir := c.Env.Dir(cs.Name)
-		grun.WriteTree(dir, map[string]string{"go.mod": pgen.GoMod, "p/p.go": cs.source()})
+		grun.WriteTree(dir, map[string]string{"go.mod": pgen.GoMod, "p/a_calls.go": cs.source(), "p/z_user.go": cs.userSource()})
 		g := c.Goderive(dir, append(append([]string{}, cs.Flags...), "./p"))
 		r := res{g: g, dir: dir}
 		if g.Exit == 0 && g.Crash == "" {
@@ -269,7 +290,7 @@ func checkC11(c *Ctx) {
 		viol := func(sym, detail string) {
 			c.Run.Violate(report.Violation{
 				Key: class + "|" + sym, Summary: cs.desc() + ": " + sym, Detail: detail,
-				Files:  map[string]string{"tree/go.mod": pgen.GoMod, "tree/p/p.go": cs.source()},
+				Files:  map[string]string{"tree/go.mod": pgen.GoMod, "tree/p/a_calls.go": cs.source(), "tree/p/z_user.go": cs.userSource()},
 				Replay: replayScript(strings.Join(append(append([]string{}, cs.Flags...), "./p"), " "), "go build ./p; echo build=$?\nexit 0"),
 			})
 		}
